@@ -158,7 +158,7 @@ def load(pname):
 
 def markers(text):
     import re
-    return {int(m) for m in re.findall(r'(?<![\\w.])(\\d{3})(?![\\w.])', text) if int(m) >= 100}
+    return {int(m) for m in re.findall(r'(?<![\w.])(\d{3})(?![\w.])', text) if int(m) >= 100}
 
 
 def stmt_text(s):
@@ -323,7 +323,9 @@ def check_cursor(pname, seq):
         except Exception as ex:  # noqa
             problems.append(dict(key='%s:cursor:%s:raised' % (pname, '>'.join(seq)), detail='forwarding %r raised %r' % (stmt_text(c.resolve())[:50], ex))); continue
         wit['prog-cursor-forwarded'] += 1
-        if not (markers(stmt_text(r)) & marks[id(c)]):
+        # inlining moves marker-carrying operands into the statements it splices ahead; what stays is the assignment to the same target
+        same_target = any(st.startswith('inline') for st in seq) and stmt_text(r).split('=')[0].strip() == stmt_text(c.resolve()).split('=')[0].strip() and '=' in stmt_text(r)
+        if not (markers(stmt_text(r)) & marks[id(c)]) and not same_target:
             problems.append(dict(key='%s:cursor:%s:unrelated' % (pname, '>'.join(seq)),
                                  detail='cursor to %r resolves to the unrelated statement %r' % (stmt_text(c.resolve())[:60], stmt_text(r)[:60])))
     return problems, wit
